@@ -127,7 +127,7 @@ func runC09(w *World, r *Report) {
 	}
 
 	// state per run: the state generator is invoked only inside a literal stored to runner.runCtx
-	r.Rule("C09.state-per-run", "stateGenerator is called only inside the literal stored in runner.runCtx; run invokes runCtx on the fresh-start arm", 2)
+	r.Rule("C09.state-per-run", "stateGenerator is called only inside the literal stored in runner.runCtx; run invokes runCtx on the fresh-start arm; state generators of the bundled flows return fresh objects that do not alias constructor variables", 4)
 	sg := w.Field("compose", "graph", "stateGenerator")
 	runCtx := w.Field("compose", "runner", "runCtx")
 	ncall := 0
@@ -168,6 +168,9 @@ func runC09(w *World, r *Report) {
 		}
 	})
 	r.Check(nrc == 1, "C09.state-per-run", "runner.run invokes runCtx", run.Pos(), "exactly one invocation per run", fmt.Sprintf("runner.run invokes runCtx %d times", nrc))
+
+	// state-fresh: the state generators of the bundled agents return fresh objects not aliasing constructor variables
+	ruleStateFresh(w, r, "C09.state-per-run")
 
 	// options per run
 	r.Rule("C09.options-per-run", "extractOption allocates its result and never writes through its parameters", 1)
@@ -241,4 +244,85 @@ func paramRoot(v ssa.Value, depth int) *ssa.Parameter {
 		return nil
 	}
 	return nil
+}
+
+// ruleStateFresh: every literal passed to compose.WithGenLocalState inside the module returns a fresh
+// allocation, and no reference-typed value captured from the enclosing constructor is stored into it
+// (such a slice/map/pointer would be shared by the states of all runs).
+func ruleStateFresh(w *World, r *Report, rule string) {
+	gls := w.Fn("compose", "WithGenLocalState")
+	n := 0
+	for _, fn := range w.RepoFuncs("flow", "compose", "components") {
+		for _, c := range callsTo(fn, gls) {
+			n++
+			lit := staticCalleeOfValue(c.Common().Args[0])
+			construct := "state generator passed to WithGenLocalState in " + w.fname(fn)
+			if lit == nil {
+				r.Info(rule, construct, c.Pos(), "generator is not a literal (cannot inspect)")
+				continue
+			}
+			bad := ""
+			instrs(lit, func(in ssa.Instruction) {
+				switch x := in.(type) {
+				case *ssa.Return:
+					if len(x.Results) == 1 {
+						if _, ok := through(x.Results[0]).(*ssa.Alloc); !ok {
+							bad = "returns a value that is not allocated in the generator"
+						}
+					}
+				case *ssa.Store:
+					if fa, ok := x.Addr.(*ssa.FieldAddr); ok {
+						if fv := freeVarRoot(x.Val, 0); fv != nil && isRefType(x.Val.Type()) {
+							bad = "field " + fieldVarOfAddr(fa).Name() + " is initialised from captured variable " + fv.Name() + " (" + x.Val.Type().String() + "): every run's state aliases the same storage"
+						}
+					}
+				}
+			})
+			r.Check(bad == "", rule, construct, c.Pos(), "returns a fresh object; no captured reference stored into it", bad)
+		}
+	}
+	if n == 0 {
+		r.Info(rule, "WithGenLocalState callers", gls.Pos(), "no caller inside the module")
+	}
+}
+
+func staticCalleeOfValue(v ssa.Value) *ssa.Function {
+	switch x := through(v).(type) {
+	case *ssa.Function:
+		return x
+	case *ssa.MakeClosure:
+		return x.Fn.(*ssa.Function)
+	}
+	return nil
+}
+
+func freeVarRoot(v ssa.Value, d int) *ssa.FreeVar {
+	if d > 10 {
+		return nil
+	}
+	switch x := v.(type) {
+	case *ssa.FreeVar:
+		return x
+	case *ssa.UnOp:
+		return freeVarRoot(x.X, d+1)
+	case *ssa.Slice:
+		return freeVarRoot(x.X, d+1)
+	case *ssa.ChangeType:
+		return freeVarRoot(x.X, d+1)
+	case *ssa.MakeInterface:
+		return freeVarRoot(x.X, d+1)
+	case *ssa.FieldAddr:
+		return freeVarRoot(x.X, d+1)
+	case *ssa.Field:
+		return freeVarRoot(x.X, d+1)
+	}
+	return nil
+}
+
+func isRefType(t types.Type) bool {
+	switch t.Underlying().(type) {
+	case *types.Slice, *types.Map, *types.Pointer, *types.Chan:
+		return true
+	}
+	return false
 }
